@@ -85,160 +85,170 @@ func TestVerifBoundedContainers(t *testing.T) {
 	if v, err := strconv.Atoi(os.Getenv("VERIF_BOUND")); err == nil && v > 0 {
 		n = v
 	}
-	ids := []uint64{}
+	// two id schemes: sparse ids (10, 17, 24, ...), and the dense indices themselves in rotated insertion order
+	// (node inserted i-th has id (i+1) mod n), so that an id of one node equals the dense index of another
+	idSchemes := [][]uint64{{}, {}}
 	for i := 0; i < n; i++ {
-		ids = append(ids, uint64(10+7*i)) // non-dense ids
+		idSchemes[0] = append(idSchemes[0], uint64(10+7*i))
+		idSchemes[1] = append(idSchemes[1], uint64((i+1)%n))
 	}
-	var pairs []vEdge
-	for _, a := range ids {
-		for _, b := range ids {
-			pairs = append(pairs, vEdge{a, b})
-		}
-	}
-	dirs := []graph.Direction{graph.DirectionOutbound, graph.DirectionInbound, graph.DirectionBoth}
-	dirName := map[graph.Direction]string{graph.DirectionOutbound: "out", graph.DirectionInbound: "in", graph.DirectionBoth: "both"}
 	graphs, comparisons := 0, 0
 	var failures []string
-	fail := func(format string, args ...any) {
-		if len(failures) < 5 {
-			failures = append(failures, fmt.Sprintf(format, args...))
-		}
-	}
-	total := 1 << uint(len(pairs))
-	for mask := 0; mask < total; mask++ {
-		var edges []vEdge
-		for i, p := range pairs {
-			if mask&(1<<uint(i)) != 0 {
-				edges = append(edges, p)
+	for _, ids := range idSchemes {
+		var pairs []vEdge
+		for _, a := range ids {
+			for _, b := range ids {
+				pairs = append(pairs, vEdge{a, b})
 			}
 		}
-		graphs++
-		am := NewAdjacencyMapGraph()
-		csrB := NewCSRDigraphBuilder()
-		ts := NewTriplestore()
-		for _, id := range ids {
-			am.AddNode(id)
-			csrB.AddNode(id)
-			ts.(*triplestore).AddNode(id)
-		}
-		for i, e := range edges {
-			am.AddEdge(e.s, e.e)
-			csrB.AddEdge(e.s, e.e)
-			ts.AddTriple(uint64(100+i), e.s, e.e)
-		}
-		containers := map[string]DirectedGraph{
-			"adjacencymap": am, "csr": csrB.Build(), "triplestore": ts,
-			"projection": ts.Projection(cardinality.NewBitmap64(), cardinality.NewBitmap64()),
-		}
-		for _, name := range []string{"adjacencymap", "csr", "triplestore", "projection"} {
-			g := containers[name]
-			comparisons++
-			if got := g.NumNodes(); got != uint64(n) {
-				fail("%s NumNodes=%d want %d edges=%v", name, got, n, edges)
+		dirs := []graph.Direction{graph.DirectionOutbound, graph.DirectionInbound, graph.DirectionBoth}
+		dirName := map[graph.Direction]string{graph.DirectionOutbound: "out", graph.DirectionInbound: "in", graph.DirectionBoth: "both"}
+		fail := func(format string, args ...any) {
+			if len(failures) < 5 {
+				failures = append(failures, fmt.Sprintf(format, args...))
 			}
-			nodes := map[uint64]bool{}
-			g.EachNode(func(x uint64) bool { nodes[x] = true; return true })
-			if !vEq(nodes, vSet(ids)) {
-				fail("%s EachNode=%v want %v edges=%v", name, vSorted(nodes), ids, edges)
-			}
-			for _, u := range ids {
-				for _, d := range dirs {
-					comparisons++
-					want := vNaiveAdj(edges, u, d)
-					got := vSet(AdjacentNodes(g, u, d))
-					if !vEq(got, want) {
-						fail("%s adjacent(%d,%s)=%v want %v edges=%v", name, u, dirName[d], vSorted(got), vSorted(want), edges)
-					}
-					// the container's own accessors, where it has them
-					if an, ok := g.(interface {
-						AdjacentNodes(uint64, graph.Direction) []uint64
-					}); ok {
-						comparisons++
-						if got := vSet(an.AdjacentNodes(u, d)); !vEq(got, want) {
-							fail("%s AdjacentNodes(%d,%s)=%v want %v edges=%v", name, u, dirName[d], vSorted(got), vSorted(want), edges)
-						}
-					}
-					if dg, ok := g.(interface {
-						Degrees(uint64, graph.Direction) uint64
-					}); ok && name != "csr" {
-						comparisons++
-						if got := dg.Degrees(u, d); got != uint64(len(want)) {
-							fail("%s Degrees(%d,%s)=%d want %d edges=%v", name, u, dirName[d], got, len(want), edges)
-						}
-					}
-					// reachability and BFS distances
-					comparisons++
-					wantReach := vNaiveReach(edges, u, d)
-					gotReach := vSet(Reach(g, u, d).Slice())
-					wr := map[uint64]bool{}
-					for k := range wantReach {
-						wr[k] = true
-					}
-					if !vEq(gotReach, wr) {
-						fail("%s Reach(%d,%s)=%v want %v edges=%v", name, u, dirName[d], vSorted(gotReach), vSorted(wr), edges)
-					}
-					for _, term := range BFSTree(g, u, d) {
-						if wantReach[term.Node] != term.Distance {
-							fail("%s BFSTree(%d,%s) node %d distance %d want %d edges=%v", name, u, dirName[d], term.Node, term.Distance, wantReach[term.Node], edges)
-						}
-					}
+		}
+		total := 1 << uint(len(pairs))
+		for mask := 0; mask < total; mask++ {
+			var edges []vEdge
+			for i, p := range pairs {
+				if mask&(1<<uint(i)) != 0 {
+					edges = append(edges, p)
 				}
 			}
-		}
-		// triple store indexes are exact
-		tsi := ts.(*triplestore)
-		for _, u := range ids {
-			for _, d := range dirs {
+			graphs++
+			am := NewAdjacencyMapGraph()
+			csrB := NewCSRDigraphBuilder()
+			ts := NewTriplestore()
+			for _, id := range ids {
+				am.AddNode(id)
+				csrB.AddNode(id)
+				ts.(*triplestore).AddNode(id)
+			}
+			for i, e := range edges {
+				am.AddEdge(e.s, e.e)
+				csrB.AddEdge(e.s, e.e)
+				ts.AddTriple(uint64(100+i), e.s, e.e)
+			}
+			containers := map[string]DirectedGraph{
+				"adjacencymap": am, "csr": csrB.Build(), "triplestore": ts,
+				"projection": ts.Projection(cardinality.NewBitmap64(), cardinality.NewBitmap64()),
+			}
+			for _, name := range []string{"adjacencymap", "csr", "triplestore", "projection"} {
+				g := containers[name]
 				comparisons++
-				want := map[uint64]bool{}
-				for i, e := range edges {
-					if (d != graph.DirectionInbound && e.s == u) || (d != graph.DirectionOutbound && e.e == u) {
-						want[uint64(i)] = true
-					}
+				if got := g.NumNodes(); got != uint64(n) {
+					fail("%s NumNodes=%d want %d edges=%v", name, got, n, edges)
 				}
-				if got := vSet(tsi.adjacentEdgeIndices(u, d).Slice()); !vEq(got, want) {
-					fail("triplestore adjacentEdgeIndices(%d,%s)=%v want %v edges=%v", u, dirName[d], vSorted(got), vSorted(want), edges)
+				nodes := map[uint64]bool{}
+				g.EachNode(func(x uint64) bool { nodes[x] = true; return true })
+				if !vEq(nodes, vSet(ids)) {
+					fail("%s EachNode=%v want %v edges=%v", name, vSorted(nodes), ids, edges)
 				}
-			}
-		}
-		// deletion projections (every set of deleted nodes; deleting each single edge)
-		if n <= 3 {
-			for dn := 0; dn < 1<<uint(n); dn++ {
-				delNodes := cardinality.NewBitmap64()
-				for i, id := range ids {
-					if dn&(1<<uint(i)) != 0 {
-						delNodes.Add(id)
-					}
-				}
-				for de := -1; de < len(edges); de++ {
-					delEdges := cardinality.NewBitmap64()
-					var kept []vEdge
-					for i, e := range edges {
-						if i == de {
-							delEdges.Add(uint64(100 + i))
-							continue
+				for _, u := range ids {
+					for _, d := range dirs {
+						comparisons++
+						want := vNaiveAdj(edges, u, d)
+						got := vSet(AdjacentNodes(g, u, d))
+						if !vEq(got, want) {
+							fail("%s adjacent(%d,%s)=%v want %v edges=%v", name, u, dirName[d], vSorted(got), vSorted(want), edges)
 						}
-						if delNodes.Contains(e.s) || delNodes.Contains(e.e) {
-							continue
-						}
-						kept = append(kept, e)
-					}
-					proj := ts.Projection(delNodes, delEdges)
-					for _, u := range ids {
-						if delNodes.Contains(u) {
-							continue
-						}
-						for _, d := range dirs {
+						// the container's own accessors, where it has them
+						if an, ok := g.(interface {
+							AdjacentNodes(uint64, graph.Direction) []uint64
+						}); ok {
 							comparisons++
-							want := vNaiveAdj(kept, u, d)
-							got := vSet(AdjacentNodes(proj, u, d))
-							if !vEq(got, want) {
-								fail("projection(delNodes=%v,delEdge=%d) adjacent(%d,%s)=%v want %v edges=%v", delNodes.Slice(), de, u, dirName[d], vSorted(got), vSorted(want), edges)
+							if got := vSet(an.AdjacentNodes(u, d)); !vEq(got, want) {
+								fail("%s AdjacentNodes(%d,%s)=%v want %v edges=%v", name, u, dirName[d], vSorted(got), vSorted(want), edges)
+							}
+						}
+						if dg, ok := g.(interface {
+							Degrees(uint64, graph.Direction) uint64
+						}); ok && name != "csr" {
+							comparisons++
+							if got := dg.Degrees(u, d); got != uint64(len(want)) {
+								fail("%s Degrees(%d,%s)=%d want %d edges=%v", name, u, dirName[d], got, len(want), edges)
+							}
+						}
+						// reachability and BFS distances
+						comparisons++
+						wantReach := vNaiveReach(edges, u, d)
+						gotReach := vSet(Reach(g, u, d).Slice())
+						wr := map[uint64]bool{}
+						for k := range wantReach {
+							wr[k] = true
+						}
+						if !vEq(gotReach, wr) {
+							fail("%s Reach(%d,%s)=%v want %v edges=%v", name, u, dirName[d], vSorted(gotReach), vSorted(wr), edges)
+						}
+						for _, term := range BFSTree(g, u, d) {
+							if wantReach[term.Node] != term.Distance {
+								fail("%s BFSTree(%d,%s) node %d distance %d want %d edges=%v", name, u, dirName[d], term.Node, term.Distance, wantReach[term.Node], edges)
 							}
 						}
 					}
 				}
 			}
+			// triple store indexes are exact
+			tsi := ts.(*triplestore)
+			for _, u := range ids {
+				for _, d := range dirs {
+					comparisons++
+					want := map[uint64]bool{}
+					for i, e := range edges {
+						if (d != graph.DirectionInbound && e.s == u) || (d != graph.DirectionOutbound && e.e == u) {
+							want[uint64(i)] = true
+						}
+					}
+					if got := vSet(tsi.adjacentEdgeIndices(u, d).Slice()); !vEq(got, want) {
+						fail("triplestore adjacentEdgeIndices(%d,%s)=%v want %v edges=%v", u, dirName[d], vSorted(got), vSorted(want), edges)
+					}
+				}
+			}
+			// deletion projections (every set of deleted nodes; deleting each single edge)
+			if n <= 3 {
+				for dn := 0; dn < 1<<uint(n); dn++ {
+					delNodes := cardinality.NewBitmap64()
+					for i, id := range ids {
+						if dn&(1<<uint(i)) != 0 {
+							delNodes.Add(id)
+						}
+					}
+					for de := -1; de < len(edges); de++ {
+						delEdges := cardinality.NewBitmap64()
+						var kept []vEdge
+						for i, e := range edges {
+							if i == de {
+								delEdges.Add(uint64(100 + i))
+								continue
+							}
+							if delNodes.Contains(e.s) || delNodes.Contains(e.e) {
+								continue
+							}
+							kept = append(kept, e)
+						}
+						proj := ts.Projection(delNodes, delEdges)
+						for _, u := range ids {
+							if delNodes.Contains(u) {
+								continue
+							}
+							for _, d := range dirs {
+								comparisons++
+								want := vNaiveAdj(kept, u, d)
+								got := vSet(AdjacentNodes(proj, u, d))
+								if !vEq(got, want) {
+									fail("projection(delNodes=%v,delEdge=%d) adjacent(%d,%s)=%v want %v edges=%v", delNodes.Slice(), de, u, dirName[d], vSorted(got), vSorted(want), edges)
+								}
+							}
+						}
+					}
+				}
+			}
+		}
+	} // id schemes
+	fail := func(format string, args ...any) {
+		if len(failures) < 5 {
+			failures = append(failures, fmt.Sprintf(format, args...))
 		}
 	}
 	// path segments: marshal/unmarshal round trip for every segment of depth <= 3 over small ids
@@ -271,7 +281,7 @@ func TestVerifBoundedContainers(t *testing.T) {
 	for _, root := range []uint64{0, 5} {
 		build(3, &Segment{Node: root})
 	}
-	res := map[string]any{"name": "containers", "bound": fmt.Sprintf("all digraphs with self loops on %d nodes", n), "graphs": graphs, "segments": segs, "cases": comparisons, "exhaustive": true, "failures": failures}
+	res := map[string]any{"name": "containers", "bound": fmt.Sprintf("all digraphs with self loops on %d nodes, two id schemes (sparse ids; dense indices in rotated insertion order)", n), "graphs": graphs, "segments": segs, "cases": comparisons, "exhaustive": true, "failures": failures}
 	out, _ := json.Marshal(res)
 	fmt.Println("BOUNDED-RESULT " + string(out))
 	if len(failures) > 0 {
